@@ -137,6 +137,22 @@ class ResultFields:
             for fld, labs in fl.items():
                 self.fields[fld] = self.fields.get(fld, EMPTY) | labs
             return
+        # <Class>.ed(...) / another static factory of the class: compose with that factory's own result fields
+        if isinstance(fn, ast.Attribute) and isinstance(fn.value, (ast.Name, ast.Attribute)) and depth < 2:
+            try:
+                kc = self.repo.resolve_name(self.f.module, ast.unparse(fn.value))
+            except Exception:
+                kc = None
+            if isinstance(kc, ClassInfo) and fn.attr in kc.methods and kc.methods[fn.attr].is_static:
+                from .jsonio import ResultFields2, bind_call_args
+                m = kc.methods[fn.attr]
+                env2, _ = bind_call_args(m, e, lambda x: ft.L(x, ft.env))
+                sub = ResultFields2(self.repo, kc, m, env2, dict_fields)
+                self.result_cls = sub.result_cls or kc
+                self.ctor_calls += sub.ctor_calls
+                for fld, labs in sub.fields.items():
+                    self.fields[fld] = self.fields.get(fld, EMPTY) | labs
+                return
         # self.zero(): compose with zero's own result fields
         if isinstance(fn, ast.Attribute) and isinstance(fn.value, ast.Name) and fn.value.id in ft.params and depth < 2:
             m = self.repo.lookup(self.c, fn.attr)
